@@ -75,6 +75,21 @@ impl Write for SWriter {
         if sh.log_events.get() { sh.events.borrow_mut().push(Ev::W { offered: buf.len(), taken: n, off: sink.len(), src: sh.src_off.get() }); }
         Ok(n)
     }
+    fn write_vectored(&mut self, bufs: &[io::IoSlice<'_>]) -> io::Result<usize> {
+        // same schedule and fault plan as `write`, applied to the concatenation of the buffers
+        let sh = &self.sh; let call = sh.writes.get() + 1; sh.writes.set(call);
+        let total: usize = bufs.iter().map(|b| b.len()).sum();
+        if let Some(f) = self.fault { if f.side == Side::Write && f.k == call && sh.fired.get().is_none() {
+            sh.fired.set(Some(Side::Write)); if sh.log_events.get() { sh.events.borrow_mut().push(Ev::X(Side::Write)); }
+            if f.kind == FKind::ZeroWrite { if sh.log_events.get() { sh.events.borrow_mut().push(Ev::W { offered: total, taken: 0, off: sh.sink.borrow().len(), src: sh.src_off.get() }); } return Ok(0); }
+            return Err(io::Error::new(f.kind.kind(), "injected write fault")); } }
+        let cap = if call <= self.sched.accepts.len() { self.sched.accepts[call - 1].max(1) } else if self.sched.then == 0 { usize::MAX } else { self.sched.then };
+        let n = cap.min(total); let mut left = n;
+        let mut sink = sh.sink.borrow_mut();
+        for b in bufs { if left == 0 { break; } let t = left.min(b.len()); sink.extend_from_slice(&b[..t]); left -= t; }
+        if sh.log_events.get() { sh.events.borrow_mut().push(Ev::W { offered: total, taken: n, off: sink.len(), src: sh.src_off.get() }); }
+        Ok(n)
+    }
     fn flush(&mut self) -> io::Result<()> {
         let sh = &self.sh; let call = sh.flushes.get() + 1; sh.flushes.set(call);
         if let Some(f) = self.fault { if f.side == Side::Flush && f.k == call && sh.fired.get().is_none() {
